@@ -296,6 +296,9 @@ pub fn cont_history(rng: &mut Rng, fl: &str, id: &str, nkeys: usize, ncalls: usi
             l.push(format!("disconnect {k} {}", rng.below(nkeys)));
         } else if r < 88 {
             l.push(format!("isolate {k}"));
+        } else if r < 90 {
+            l.push("g.sz 0".into());
+            l.push(format!("sz {k}"));
         } else if r < 94 {
             l.push("g.to_dot 0".into());
         } else {
